@@ -1251,8 +1251,11 @@ def transform(fn, proceed, to_instrument=True, set_conformer=True):
     new_fn = _compile(filename, new_tree, freevars)
 
     fname = fn.__name__
-    save = glb.get(fname, None)
-    exec(new_fn, glb, glb)
+    # The new function is defined in a separate namespace, so that the global
+    # variable that holds fn is never rebound, even temporarily (another
+    # thread may be calling it).
+    defined = {}
+    exec(new_fn, glb, defined)
 
     try:
         from codefind import code_registry
@@ -1263,11 +1266,11 @@ def transform(fn, proceed, to_instrument=True, set_conformer=True):
         pass
 
     # Get the new function (populated with exec)
-    if "#WRAP" in glb:
+    if "#WRAP" in defined:
         # If the function is a closure, we have created a function
         # called #WRAP that takes the closure variables as arguments
         # and returns the function that interests us.
-        wrapped_fn = glb.pop("#WRAP")(
+        wrapped_fn = defined.pop("#WRAP")(
             *[cell.cell_contents for cell in fn.__closure__]
         )
         # Use the cells of the original function rather than copies of their
@@ -1287,12 +1290,9 @@ def transform(fn, proceed, to_instrument=True, set_conformer=True):
         actual_fn.__qualname__ = wrapped_fn.__qualname__
         actual_fn.__module__ = wrapped_fn.__module__
     else:
-        actual_fn = glb[fname]
+        actual_fn = defined[fname]
 
     glb[fnsym] = actual_fn
-
-    # However, we don't want to change the existing mapping of fn
-    glb[fname] = save
 
     all_vars = transformer.used | transformer.assigned
 
